@@ -467,6 +467,68 @@ theorem cache_before_validate_panics :
 /-- … while the real order answers `err` twice -/
 example : lookupSeq true (fun _ => .ok []) (fun _ => 1) [] [(0, 0), (0, 0)] = [.err, .err] := by decide
 
+/-! ## coverage walk over a run of PMTiles ids (`include_run`) -/
+
+theorem blockExpGo_spec (z pos limit : Nat) : ∀ (f k : Nat), pos % 4 ^ k = 0 → 4 ^ k ≤ limit → k ≤ z →
+    pos % 4 ^ (blockExpGo z pos limit f k) = 0 ∧ 4 ^ (blockExpGo z pos limit f k) ≤ limit ∧ blockExpGo z pos limit f k ≤ z := by
+  intro f
+  induction f with
+  | zero => intro k h1 h2 h3; simp [blockExpGo]; exact ⟨h1, h2, h3⟩
+  | succ f ih =>
+    intro k h1 h2 h3
+    simp only [blockExpGo]
+    split
+    · rename_i h; exact ih (k + 1) h.2.1 h.2.2 (by omega)
+    · exact ⟨h1, h2, h3⟩
+
+/-- every block is aligned, fits into what is left of the run and is at most the whole level -/
+theorem blockExp_spec (z pos limit : Nat) (hl : 1 ≤ limit) :
+    pos % 4 ^ (blockExp z pos limit) = 0 ∧ 4 ^ (blockExp z pos limit) ≤ limit ∧ blockExp z pos limit ≤ z :=
+  blockExpGo_spec z pos limit z 0 (by simp [Nat.mod_one]) (by simpa using hl) (Nat.zero_le _)
+
+/-- **the blocks tile the run exactly**: a position lies in the run iff it lies in one of the blocks,
+    every block is aligned (`4^k ∣ start`) and has `k ≤ z` — so no tile of the run is missed and none
+    outside the run is added, whatever `run_length` (up to 2^32−1) the directory announces -/
+theorem runBlocks_cover (z : Nat) : ∀ (f pos rem : Nat), rem ≤ f →
+    (∀ i, (pos ≤ i ∧ i < pos + rem) ↔ ∃ b ∈ runBlocks z f pos rem, b.1 ≤ i ∧ i < b.1 + 4 ^ b.2) ∧
+    (∀ b ∈ runBlocks z f pos rem, b.1 % 4 ^ b.2 = 0 ∧ b.2 ≤ z) := by
+  intro f
+  induction f with
+  | zero =>
+    intro pos rem h
+    have : rem = 0 := by omega
+    subst this
+    simp [runBlocks]
+  | succ f ih =>
+    intro pos rem h
+    simp only [runBlocks]
+    split
+    · rename_i h0; subst h0; simp
+    · rename_i h0
+      obtain ⟨ha, hb, hc⟩ := blockExp_spec z pos rem (by omega)
+      have hpos : 0 < 4 ^ blockExp z pos rem := Nat.pow_pos (by omega)
+      obtain ⟨ih1, ih2⟩ := ih (pos + 4 ^ blockExp z pos rem) (rem - 4 ^ blockExp z pos rem) (by omega)
+      constructor
+      · intro i
+        constructor
+        · intro hi
+          by_cases hlt : i < pos + 4 ^ blockExp z pos rem
+          · exact ⟨_, List.mem_cons_self, hi.1, hlt⟩
+          · obtain ⟨b, hb1, hb2⟩ := (ih1 i).mp ⟨by omega, by omega⟩
+            exact ⟨b, List.mem_cons_of_mem _ hb1, hb2⟩
+        · rintro ⟨b, hb1, hb2⟩
+          rcases List.mem_cons.mp hb1 with rfl | hb1
+          · simp only at hb2; constructor <;> omega
+          · have := (ih1 i).mpr ⟨b, hb1, hb2⟩
+            constructor <;> omega
+      · intro b hb1
+        rcases List.mem_cons.mp hb1 with rfl | hb1
+        · exact ⟨ha, hc⟩
+        · exact ih2 b hb1
+
+/-- example: positions 3 ‥ 20 of level 3 are covered by 1 + 3·4 + 1·… blocks -/
+example : runBlocks 3 18 3 18 = [(3, 0), (4, 1), (8, 1), (12, 1), (16, 1), (20, 0)] := by decide
+
 /-! ## length-prefixed reads: no panic, allocation ≤ input -/
 
 theorem readBytes_no_panic (r : Prim.Reader) (n : Nat) : (Decoders.readBytes r n).out ≠ .panic := by
@@ -892,6 +954,15 @@ theorem json_too_deep_err {N : Type} (ops : NumOps N) (k : Nat) (rest : Json.Byt
   have h2 : maxNesting + k + 1 = maxNesting + 1 + k := by omega
   rw [h2] at this
   rw [this]; rfl
+/-- `TileJSON::try_from(&Blob)` on arbitrary bytes: never a panic, always a document or an error -/
+theorem tileJsonBlob_total (input : Json.Bytes) : tileJsonBlob input = .ok () ∨ tileJsonBlob input = .err := by
+  unfold tileJsonBlob
+  rcases jsonBlob_total input with ⟨v, hv⟩ | he
+  · rw [hv]
+    cases v <;> simp
+    exact (Classical.em _).symm
+  · rw [he]; simp
+
 end JsonNP
 
 /-! ## vector tiles (`value_reader.rs`, `vector_tile/*.rs`) -/
